@@ -244,6 +244,22 @@ theorem request_tree_terminates (c : TreeCfg) (root : Act) (n : Nat) (st : List 
     exact Nat.mul_le_mul hk hw
   omega
 
+/-- **The alias chase stops at the deadline.** Once the request deadline has
+passed (`expired`, one-way), every hop of every chase level is refused before
+its internal exchange, whatever the sub-responses look like: from an expired
+state the chase starts no further sub-query (exchanges already in flight when
+the deadline passes finish on their own, they are not part of this model). -/
+theorem chase_stops_at_deadline (s : ChaseState) (evs : List ChaseEv) (h : s.expired = true) :
+    (chaseRun s evs).started = s.started ∧ (chaseRun s evs).expired = true := by
+  induction evs generalizing s with
+  | nil => exact ⟨rfl, h⟩
+  | cons e t ih =>
+    have hs : (chaseStep s e).started = s.started ∧ (chaseStep s e).expired = true := by
+      cases e <;> simp [chaseStep, h]
+    have := ih (chaseStep s e) hs.2
+    exact ⟨by rw [show chaseRun s (e :: t) = chaseRun (chaseStep s e) t from rfl, this.1, hs.1],
+           by rw [show chaseRun s (e :: t) = chaseRun (chaseStep s e) t from rfl]; exact this.2⟩
+
 /-- The nesting / chain caps the termination argument rests on are at most the
 values it was stated for (raising one is flagged, lowering is not). -/
 theorem nesting_caps_fact :
@@ -333,14 +349,18 @@ context with `depth+1` before the internal exchange; `processDelegation` and
 they re-enter `resolve` (`FStep.descend` / `FStep.cached`); `rs.level++` and
 `rs.nomin = true` outside the cached descent happen only under `minimized`
 (`FStep.levelUp` / `FStep.nominRetry`); NS-address lookups consult `checkLoop`
-first. -/
+first; the cache's alias chase (`additionalAnswer`) re-checks the request
+deadline on every hop before it starts another internal exchange — the guard
+that turns `request_tree_terminates`' astronomically large bound into "stops at
+the query deadline" when no budget is enforced (see `chase_stops_at_deadline`). -/
 theorem termination_guards_shape :
     SdnsVerif.Gen.C12.shape_dname_depth_guard = true ∧
     SdnsVerif.Gen.C12.shape_delegation_spends_depth = true ∧
     SdnsVerif.Gen.C12.shape_cached_descent_spends_depth = true ∧
     SdnsVerif.Gen.C12.shape_level_up_only_when_minimized = true ∧
     SdnsVerif.Gen.C12.shape_nomin_retry_only_when_minimized = true ∧
-    SdnsVerif.Gen.C12.shape_checkloop_before_ns_lookup = true := by decide
+    SdnsVerif.Gen.C12.shape_checkloop_before_ns_lookup = true ∧
+    SdnsVerif.Gen.C12.shape_chase_checks_deadline = true := by decide
 
 /-! ### non-vacuity -/
 
@@ -374,6 +394,9 @@ example : f0.mu ≤ 64 * 6 := by decide
 example : TStep ⟨400, 3⟩ [{ frame := f0, credit := 2, room := 32 }]
     [{ frame := f0, credit := 3, room := 31 }, { frame := f0, credit := 1, room := 32 }] :=
   .spawn { frame := f0, credit := 2, room := 32 } f0 3 [] (by decide) (by decide) (by decide) (by decide)
+
+-- a chase that took three hops, then the deadline passed: the next two hop attempts start nothing
+example : (chaseRun {} [.hop, .hop, .hop, .deadline, .hop, .hop]).started = 3 := by decide
 
 -- the over-budget reply for an EDNS client whose tree ran out of signature checks
 example : servfailReply pol2 { first := Kind.signature.idx + 1 } true none = { rcode := 2, ede := some 5 } := by decide
